@@ -333,6 +333,8 @@ def r8_4(ctx):
     def is_buffer_data_dst(n):
         # arena->buffers[..].data + off
         n = cu.strip_casts(f, n)
+        if n is not None and cu.stable_def_of(f, n) is not None:
+            n = cu.stable_def_of(f, n)        # a local naming the slot address
         for x in f.walk(n):
             if x['k'] == 'member' and x['fld'] == 'data' and x.get('rec') == 'YR_ARENA_BUFFER':
                 return True
